@@ -742,12 +742,13 @@ where
 
     fn resolve_indexed_access_unguarded(&self, obj: &TsType, index: &TsType) -> Option<TsType> {
         // parentheses mean nothing: `(string[])[number]`, `T[("a")]`
+        // (through the guarded entry: `type Loop = (Loop)` must not recurse for ever)
         if let TsType::TsParenthesizedType(TsParenthesizedType { type_ann, .. }) = index {
-            return self.resolve_indexed_access_unguarded(obj, type_ann);
+            return self.resolve_indexed_access(obj, type_ann);
         }
         match obj {
             TsType::TsParenthesizedType(TsParenthesizedType { type_ann, .. }) => {
-                self.resolve_indexed_access_unguarded(type_ann, index)
+                self.resolve_indexed_access(type_ann, index)
             }
             // `T["a"]["b"]`
             TsType::TsIndexedAccessType(TsIndexedAccessType {
